@@ -186,7 +186,25 @@ def eng_key(prop, tier, seed):
     return run_shards(f"{prop}-key", cmds, 900 if tier == "quick" else 7200)
 
 
-ENGINES = {"l1": eng_l1, "l2": eng_l2, "key": eng_key}
+def eng_conc(prop, tier, seed):
+    cargo_build(["l2"])
+    n = JOBS
+    cmds = []
+    quick = tier == "quick"
+    n_serial = int(os.environ.get("VERIF_CONC_SERIAL", "0")) or (500 if quick else 120000)
+    n_jitter = int(os.environ.get("VERIF_CONC_JITTER", "0")) or (30 if quick else 6000)
+    for i in range(n):
+        out = os.path.join(OUT, f"{prop}-conc-serial-{i}.json")
+        cmds.append(([bin_path("concmon"), "--out", out, "--seed", str(seed), "--shard", f"{i}/{n}", "--focus", prop, "--mode", "serial", "--scenarios", str(n_serial)], out))
+    # jitter runs use real parallelism: fewer processes at a time would be kinder, but the
+    # oracle does not depend on timing (a stall without a wait-for cycle is only 'inconclusive')
+    for i in range(max(2, n // 4)):
+        out = os.path.join(OUT, f"{prop}-conc-jitter-{i}.json")
+        cmds.append(([bin_path("concmon"), "--out", out, "--seed", str(seed), "--shard", f"{i}/{max(2, n // 4)}", "--focus", prop, "--mode", "jitter", "--scenarios", str(n_jitter)], out))
+    return run_shards(f"{prop}-conc", cmds, 1500 if quick else 14400)
+
+
+ENGINES = {"l1": eng_l1, "l2": eng_l2, "key": eng_key, "conc": eng_conc}
 
 # property -> (engines, level, rule text, assumptions)
 PROPS = {}
@@ -236,8 +254,21 @@ prop("C02", ["key", "l2"], "exploration",
      "(render two neighbouring arguments with separators '', '|', ',', ' ', '\"|\"', ', ', move the boundary, re-parse); f(a); f(b); f(a) must execute twice and serve a its own serial; every 32 pairs the number of listed key strings must equal the number of distinct tuples stored. "
      "Non-trivial/distinct = distinct (function, a, b) pairs. " + L2_RULE + "There, a learned slot->key-string map must stay injective.",
      COMMON_ASSUME + ["'differ' means structural inequality of the argument values (0.0 and -0.0 differ; NaN is excluded)"], ("C02", "pairs"))
-prop("C03", ["l2"], "exploration",
-     L2_RULE + "Focus: functions with no limit/ttl/max_memory/cache_if/invalidate_on. Non-trivial = a repeat call for an argument tuple already stored (must not run the body; once per thread for scope=thread); at the end of every history without invalidations the execution count per distinct tuple must be exactly 1. Distinct = distinct (function, tuple, stored-before?, thread).",
+CONC_RULE = ("CONCURRENCY: scenarios of 1-3 corpus functions (real macro expansions, sync global and async; thread scope for C14) and 2-3 threads (serial scheduler) or 2-8 threads (free-running with seeded "
+             "delays injected at lock attempt/release events) running programs of cached calls, invalidate_with / invalidate_all_with, tag/event/dependency/name invalidations, stats queries and clock steps. "
+             "The serial scheduler passes a baton at every lock attempt/release (hooked lock_api: parking_lot and DashMap shard locks), body entry and API-call boundary, with switch probabilities 1.0/0.4/0.15/0.06; "
+             "a deadlock is 'some thread unfinished and none enabled' (no timing involved). At quiescence: values, limit/max_memory bounds, unknown keys, eviction/expiry/invalidation probes, a sequential probe history, "
+             "hit+miss conservation, and the execution history are checked. Distinct = distinct (function set, schedule trace hash). ")
+
+prop("C17", ["conc"], "exploration",
+     CONC_RULE + "Non-trivial = a schedule that ran to completion or to a diagnosed deadlock.",
+     COMMON_ASSUME + ["serial mode does not model writer preference of parking_lot's RwLock and takes first-use registration (Once/Lazy) out of the scheduled phase by a single-threaded warm-up; both are exercised only in jitter mode",
+                      "schedules are sampled (random walk with bounded preemption), not enumerated"], ("C17", "schedules_completed_without_deadlock"))
+prop("C18", ["conc"], "exploration",
+     CONC_RULE + "Non-trivial = a quiescent state reached after a concurrent phase and probed.",
+     COMMON_ASSUME + ["queue entries whose key is no longer stored are tolerated, as the property says; a stored key the queue does not know shows up in the eviction probe (FIFO/LRU) or as an exceeded bound"], ("C18", "quiescent_states_checked"))
+prop("C03", ["l2", "conc"], "exploration",
+     CONC_RULE + L2_RULE + "Focus: functions with no limit/ttl/max_memory/cache_if/invalidate_on. Non-trivial = a repeat call for an argument tuple already stored (must not run the body; once per thread for scope=thread); at the end of every history without invalidations the execution count per distinct tuple must be exactly 1. Distinct = distinct (function, tuple, stored-before?, thread).",
      COMMON_ASSUME, ("C03", "repeat_calls_on_unbounded_caches"))
 prop("C09", ["l2"], "exploration",
      L2_RULE + "Focus: functions returning Result / std::result::Result without cache_if (all scopes, policies, limits, with and without max_memory). Outcomes follow an arbitrary Ok/Err script per call. Non-trivial = a scripted Err outcome; distinct = distinct (function, tuple, cached?, outcome, previous non-store reason).",
@@ -254,11 +285,11 @@ prop("C12", ["l2"], "exploration",
 prop("C13", ["l2"], "exploration",
      L2_RULE + "Focus: invalidate_with / invalidate_all_with with predicates = arbitrary subsets of the stored keys (per cache), followed by further history so that leftover bookkeeping shows as a wrong later eviction. Non-trivial = a conditional invalidation; distinct = distinct (function, entries before, subset).",
      COMMON_ASSUME, ("C13", "conditional_invalidations"))
-prop("C14", ["l2"], "exploration",
-     L2_RULE + "Focus: every function called from 2-4 worker threads in random serial orders; scope=thread functions have one model per thread, global/async ones a single shared model. Non-trivial = a call on a multi-thread history; distinct = distinct (function, tuple, calling thread, thread that stored it, cached?).",
+prop("C14", ["l2", "conc"], "exploration",
+     CONC_RULE + L2_RULE + "Focus: every function called from 2-4 worker threads in random serial orders; scope=thread functions have one model per thread, global/async ones a single shared model. Non-trivial = a call on a multi-thread history; distinct = distinct (function, tuple, calling thread, thread that stored it, cached?).",
      COMMON_ASSUME + ["free-running thread interleavings are covered by the concurrency monitor, not here"], ("C14", "thread_scope_calls_multi_actor"))
-prop("C15", ["l2"], "exploration",
-     L2_RULE + "Focus: global and async functions (custom names included): stats_registry::get(name) must equal the model's hit/miss counters after every call, invalidation and reset; a reset of one name must leave the others unchanged. Non-trivial = a comparison; distinct = distinct (function, hits, misses) triples.",
+prop("C15", ["l2", "conc"], "exploration",
+     CONC_RULE + L2_RULE + "Focus: global and async functions (custom names included): stats_registry::get(name) must equal the model's hit/miss counters after every call, invalidation and reset; a reset of one name must leave the others unchanged. Non-trivial = a comparison; distinct = distinct (function, hits, misses) triples.",
      COMMON_ASSUME, ("C15", "stats_comparisons"))
 prop("C04", ["l1"], "exploration",
      "generated lookup/store/advance histories (40-200 ops + fill probe) for every configuration of the product flavour x policy x limit x ttl x max_memory x frequency_weight, on the real engines with harness-owned storage; after every operation the whole store is compared with the specification model. Non-trivial = a store that overflows the entry limit; distinct = distinct (configuration, number of residents, replacing?, recency/insertion order shape, size class) tuples among those.",
@@ -272,9 +303,9 @@ def write_evidence(pid, tier, seed, spec, merged, wall, n_viol):
     pc = dict(counters.get(pid, {}))
     dist = merged["distinct"].get(pid, {"set": set(), "n_disjoint": 0})
     evaluations = 0
-    for grp in counters.values():
+    for grp_name, grp in counters.items():
         for k, v in grp.items():
-            if k in ("lookups", "stores", "calls", "scenarios", "schedules", "pairs", "programs", "polls"):
+            if k in ("lookups", "stores", "calls", "scenarios", "schedules", "pairs", "programs", "polls") and grp_name in ("L1", "L2", "CONC", "KEY", "C02", "POLL", "C19"):
                 evaluations += v
     samples = merged["samples"].get(pid, [])[:6]
     cov = {
@@ -380,6 +411,8 @@ def main():
     reattribute(merged["violations"])
     known = load_known()
     os.makedirs(REPLAYS, exist_ok=True)
+    for old in glob.glob(os.path.join(REPLAYS, f"{pid}-{seed}-*.json")):
+        os.remove(old)
     new_viol, known_hits = [], {}
     for v in merged["violations"]:
         if v.get("property") != pid:
@@ -430,6 +463,10 @@ def replay(path):
     if mon == "l1mon":
         cargo_build(["l1"])
         r = subprocess.run([bin_path("l1mon"), "--replay", path, "--out", "/dev/null"], cwd=ROOT, env=ENV)
+        sys.exit(r.returncode)
+    if mon == "concmon":
+        cargo_build(["l2"])
+        r = subprocess.run([bin_path("concmon"), "--replay", path, "--out", "/dev/null"], cwd=ROOT, env=ENV)
         sys.exit(r.returncode)
     if mon == "l2mon":
         cargo_build(["l2"])
